@@ -458,7 +458,7 @@ def run(run):
     rep.finish(rep.batch(section_increments(rep, 5), timeout_s=timeout), PROP)
     rep.finish(rep.batch(section_increment_wiring(rep), timeout_s=timeout), PROP)
     rep.selfcheck(PROP, [{'check': 'rate', 'point': {}, 'params': {'form': 'position'}}, {'check': 'rate', 'point': {}, 'params': {'form': 'position+velocity'}},
-                         {'check': 'stationary', 'point': {}, 'params': {'form': 'position'}}] + [{'check': 'increments', 'point': pt} for pt in rep.points((3 if run.tier == 'quick' else 20))])
+                         {'check': 'stationary', 'point': {}, 'params': {'form': 'position'}}, {'check': 'wiring', 'point': {}}] + [{'check': 'increments', 'point': pt} for pt in rep.points((3 if run.tier == 'quick' else 20))])
     for name, sec, spec in CANARIES:
         try:
             obls = section_rate(rep, 'position', _mut(spec)) if sec == 'rate' else (
@@ -507,6 +507,29 @@ def replay(spec):
                 fails.append('%s increment error %.3g at dt=0.04 (%.3g at 0.02, ratio %.2f) does not fall like dt^%d' % (what, e1, e2, e1 / max(e2, 1e-300), p))
             elif e1 > 50 * sc ** (p + 1) * 0.04 ** p:
                 fails.append('%s increment error %.3g at dt=0.04 far above the O(dt^%d) level' % (what, e1, p))
+        return {'violated': bool(fails), 'detail': fails}
+    if chk == 'wiring':
+        # increment-type sensor at rest on the rotating Earth: every increment is the constant
+        # body-frame Earth rate / reaction to gravity times the interval, although in the inertial
+        # frame in which generate_imu works attitude, acceleration and gravitation all rotate
+        from pyins import transform as T_
+        for dt_ in (0.1, 1.0):
+            for lla0, rph0 in (([50.0, 30.0, 1000.0], [10.0, -20.0, 100.0]), ([-35.0, -100.0, 50.0], [-170.0, 40.0, -60.0])):
+                tt = np.arange(0, 12 * dt_, dt_)
+                lla_ = np.tile(lla0, (len(tt), 1))
+                rph_ = np.tile(rph0, (len(tt), 1))
+                tr_, imu_ = sim.generate_imu(tt, lla_, rph_, None, 'increment')
+                C = T_.mat_from_rph(np.array(rph0))
+                gy = C.T @ earth.rate_n(lla0[0]) * dt_
+                ac = -C.T @ earth.gravity_n(lla0[0], lla0[2]) * dt_
+                eg = np.abs(imu_[['gyro_x', 'gyro_y', 'gyro_z']].values - gy).max()
+                ea = np.abs(imu_[['accel_x', 'accel_y', 'accel_z']].values - ac).max()
+                if eg > 1e-12 * max(1.0, dt_ / 0.1):
+                    fails.append('increment sensor at rest (dt=%g): gyro increments differ from the body-frame Earth rate times dt by %.3g rad' % (dt_, eg))
+                if ea > 2e-7:
+                    fails.append('increment sensor at rest (dt=%g): accel increments differ from the reaction to gravity times dt by %.3g m/s' % (dt_, ea))
+                if len(imu_) != len(tt) or not np.array_equal(imu_.values[0], imu_.values[1]):
+                    fails.append('increment sensor: one row per stamp with the first sample duplicated does not hold')
         return {'violated': bool(fails), 'detail': fails}
     # smooth analytic motion
     form = (spec.get('params') or {}).get('form', 'position')
